@@ -141,6 +141,26 @@ class TagCx:
                         base |= self._closure_tags(r, term, at_block, depth + 1)
                 else:
                     return set(ALL)
+        elif h == "call" and term[1] == "std::iter::Iterator::reduce" and len(term[2]) == 2:
+            # reduce(iter, f): the first item, combined with the others by f (both closure arguments are items)
+            base = set()
+            fake = ("call", "std::iter::Iterator::fold", (term[2][0], frozenset(), term[2][1]), None)
+            for x in term[2][1]:
+                if x[0] == "closure":
+                    cb = self.lib.fn(x[1])
+                    if cb is None:
+                        return set(ALL)
+                    co = Origins(cb, self.lib)
+                    for r in co.of_local(0):
+                        # accumulator (param 2) is itself an item of the iterator
+                        if r == ("param", 2):
+                            r = ("param", 3)
+                        rr = r
+                        if rr[0] == "call" and rr[1] in ("std::cmp::max", "std::cmp::min"):
+                            rr = ("call", rr[1], tuple(frozenset(("param", 3) if y == ("param", 2) else y for y in a) for a in rr[2]), None)
+                        base |= self._closure_tags(rr, fake, at_block, depth + 1)
+                else:
+                    return set(ALL)
         elif h == "param":
             base = set(ALL)
         else:
